@@ -571,6 +571,28 @@ func (P *Program) registerStd() {
 		return fr.in.freshOpq()
 	})
 	P.reg("github.com/dchest/uniuri.New", P.intrinsics["github.com/dchest/uniuri.NewLen"])
+	// ---- encoding/json: the encoder is outside the model; the bytes are a blob tagged with the value
+	P.reg("encoding/json.Marshal", func(fr *frame, args []value) value {
+		fr.in.path.noteAssumption("json.Marshal yields an opaque blob that stands for the JSON text of its argument")
+		return tuple{sliceVal{&opaque{kind: "json", data: args[0]}}, iface{}}
+	})
+	P.reg(VH+".IsJSONOf", func(fr *frame, args []value) value {
+		in := fr.in
+		data := args[0].(sliceVal)
+		if len(data) != 1 {
+			return in.boolv(false)
+		}
+		o, ok := data[0].(*opaque)
+		if !ok || o.kind != "json" {
+			return in.boolv(false)
+		}
+		src := o.data.(iface)
+		want := args[1].(iface)
+		if src.t == nil || want.t == nil || !types.Identical(src.t, want.t) {
+			return in.boolv(false)
+		}
+		return in.equals(src.t, src.v, want.v)
+	})
 	// ---- misc
 	P.reg("os.Exit", func(fr *frame, args []value) value { panic(targetPanic{msg: "os.Exit called"}) })
 }
